@@ -89,6 +89,11 @@ def cex_request(req, impl, seed=1, tries=3000):
         if not isinstance(a, tuple):
             return None
         return sx.dump(["cex_tptp", r[1], a, str(seed), str(tries)])
+    if op == "external":
+        # (external spec prog ug po dec dir rep byp simp brk fuel); the answer is the list of problems
+        if not isinstance(a, list) or (a and a[0] in ("error", "timeout", "panic")) or len(r) != 12:
+            return None
+        return sx.dump(["cex_external"] + r[1:11] + [a, str(seed), str(tries)])
     if op == "simplify":
         if not (isinstance(a, list) and len(a) == 2 and a[0] in ("ok", "timeout")):
             return None
@@ -120,7 +125,7 @@ def search_generic(mismatches, outdir):
                     kept.append(m)
         cands = kept
     reqs, idx = [], []
-    many = bool(cands) and cands[0]["request"].startswith(("(tau_star", "(mu", "(natural", "(strong"))
+    many = bool(cands) and cands[0]["request"].startswith(("(tau_star", "(mu", "(natural", "(strong", "(external"))
     # several disagreements are the same shape (one formula under three portfolios / strategies): keep one per output pair
     seen, uniq = set(), []
     for m in cands:
@@ -639,6 +644,7 @@ PROPS = {
         "assumptions": COMMON_ASSUME,
     },
     "C02": {
+        "search": search_generic,
         "suites": [("external", 500, 10000), ("external_text", 150, 3000)],
         "extra": corpus_findings("C02", "external", {
             "corpus:missing_output": ("missing_output", lambda a: a.strip() == "()"),
